@@ -7,6 +7,7 @@ CONSTANTS
   Vals = {Vals}
   BigVals = {BigVals}
   Limit = {Limit}
+  Limits = {Limits}
   MaxOps = {MaxOps}
   MaxBatch = {MaxBatch}
   MaxFaults = {MaxFaults}
@@ -19,12 +20,14 @@ CHECK_DEADLOCK FALSE
 '''
 
 def xixi_mc(name, invariants, properties=(), quick=None, thorough=None, **consts):
-    base = dict(Keys='{1, 2}', Vals='{1, 2, 3}', BigVals='{3}', Limit=2, MaxOps=4, MaxBatch=3, MaxFaults=0,
+    base = dict(Keys='{1, 2}', Vals='{1, 2, 3}', BigVals='{3}', Limit=2, Limits=None, MaxOps=4, MaxBatch=3, MaxFaults=0,
                 MaxMerges=1, MaxRestarts=1, SyncAlways='FALSE', Features='{"batch", "merge", "restart", "delete", "sync"}', Bug='{}')
     base.update(consts)
     cfg = MC_HEAD + 'INVARIANTS ' + ' '.join(invariants) + '\n'
     if properties:
         cfg += 'PROPERTIES ' + ' '.join(properties) + '\n'
+    if base['Limits'] is None:      # by default every Open uses the same limit; a tier may override Limit, so Limits follows it
+        base['Limits'] = '{{Limit}}'
     return dict(module='XiXiKV', name=name, cfg=cfg, consts=base, quick=quick or {}, thorough=thorough or {}, workers=12, timeout=1500, xmx='12g')
 
 ALL_INV = ['MapSemantics', 'QuiescentLiveEqualsRecovered', 'RecoveredOK', 'NeverFails', 'AccountingExact',
@@ -119,7 +122,12 @@ PROPS['C06'] = dict(
     level='model_checking',
     mc=[xixi_mc('MC_Merge', ['MapSemantics', 'QuiescentLiveEqualsRecovered', 'RecoveredOK', 'NeverFails', 'AccountingExact'],
                 properties=['MergeDirGone', 'AdoptedDirIsMinimal'], Features='{"batch", "merge", "restart", "delete"}',
-                quick=dict(MaxOps=3, MaxMerges=2, MaxRestarts=2, Limit=2), thorough=dict(MaxOps=4, MaxMerges=2, MaxRestarts=2, Limit=2))],
+                quick=dict(MaxOps=3, MaxMerges=2, MaxRestarts=2, Limit=2), thorough=dict(MaxOps=4, MaxMerges=2, MaxRestarts=2, Limit=2))]
+        # every Open chooses its own DataFileSize: the merge output may need fewer, equally many or more files than the input
+        # (more: the merge gives up without a marker and nothing changes)
+        + [xixi_mc('MC_MergeLimits', ['MapSemantics', 'QuiescentLiveEqualsRecovered', 'RecoveredOK', 'NeverFails', 'AccountingExact', 'FileSizeRespected'],
+                   properties=['MergeDirGone'], Features='{"merge", "restart", "delete"}', Limits='{1, 2, 3}', Vals='{1, 2}', BigVals='{}',
+                   quick=dict(MaxOps=3, MaxMerges=1, MaxRestarts=2, Limit=2), thorough=dict(MaxOps=4, MaxMerges=2, MaxRestarts=2, Limit=2))],
     traces=[dict(profile='merge', spec='EngineTrace',
                  enforce=['res', 'bres', 'open', 'vals', 'keys', 'fold', 'scan', 'index', 'nomdir', 'adopted', 'statkeys'],
                  quick_seeds=1, thorough_seeds=2),
